@@ -53,3 +53,15 @@ Definition history_rollback : list ev :=
    ok 0 (* checkpoint: size 1 published over size 2 *)].
 
 Definition world_rollback : world := run toy_sha history_rollback init.
+
+(* cmd/recompute-cache: one entry is sequenced and published, the dedup cache is lost, the tool
+   rebuilds it from the published tree. *)
+Definition history_rc : list ev :=
+  [EvClock 10; EvCreate 0 cfg1; ok 0; ok 0; ok 0; ok 0; ok 0;
+   EvStart 0 cfg1 None; ok 0; ok 0; ok 0;
+   EvSubmit 0 (ent x31) false 0 [];
+   EvTick 0; EvClock 20; ok 0 (* clock *); ok 0 (* staging *); ok 0 (* cas *);
+   okk 0 "tile/data/000.p/1"; okk 0 "tile/names/000.p/1"; okk 0 "tile/0/000.p/1";
+   ok 0 (* checkpoint *); ok 0 (* discard *);
+   EvCacheDrop 0 0].
+Definition world_rc : world := run toy_sha history_rc init.
